@@ -26,6 +26,9 @@
   closure   the block of an `if` that binds no name and does not leave becomes a local function called in its place
   annotate  every parameter and function gets a type annotation, the first plain assignment of every local becomes `x: T = v`
   require   `if c: raise E('literal')` -> `_require_rw(not c, E, 'literal')` with a module-level helper
+  demorgan  `if a and b:` -> `if not (not a or not b):`
+  findin    `s.find('x') > -1` -> `'x' in s` (and the negated forms)
+  duptail   a simple statement behind a two-way `if` whose branches fall through is copied to the end of both branches
   modalias  every package module is imported under another name (`from . import trees as trees_m`)
   fromimp   functions / constants of other package modules are imported directly (`from .trees import children`) wherever
             no scope of the importing module binds the same name
@@ -723,12 +726,82 @@ class Require(ast.NodeTransformer):
         return node
 
 
+class DeMorgan(ast.NodeTransformer):
+    """`if a and b:` -> `if not (not a or not b):`;  `if not (a or b)` etc. are left alone: one direction is enough to change
+    the shape of every conjunction used as a condition"""
+    def _neg(self, e):
+        if isinstance(e, ast.UnaryOp) and isinstance(e.op, ast.Not):
+            return e.operand
+        return ast.UnaryOp(op=ast.Not(), operand=e)
+
+    def visit_If(self, node):
+        self.generic_visit(node)
+        t = node.test
+        if isinstance(t, ast.BoolOp) and isinstance(t.op, ast.And) and not any(isinstance(x, ast.NamedExpr) for x in ast.walk(t)):
+            node.test = ast.UnaryOp(op=ast.Not(), operand=ast.BoolOp(op=ast.Or(), values=[self._neg(v) for v in t.values]))
+        return node
+
+
+class FindIn(ast.NodeTransformer):
+    """`s.find('x') > -1` / `>= 0` / `!= -1` -> `'x' in s`;  `== -1` / `< 0` -> `'x' not in s`   (constant needle)"""
+    def visit_Compare(self, node):
+        self.generic_visit(node)
+        if len(node.ops) == 1 and isinstance(node.left, ast.Call) and isinstance(node.left.func, ast.Attribute) \
+                and node.left.func.attr == 'find' and len(node.left.args) == 1 and isinstance(node.left.args[0], ast.Constant) \
+                and isinstance(node.left.args[0].value, str) and isinstance(node.comparators[0], (ast.Constant, ast.UnaryOp)):
+            try:
+                k = ast.literal_eval(node.comparators[0])
+            except Exception:
+                return node
+            op = type(node.ops[0])
+            pos = (op is ast.Gt and k == -1) or (op is ast.GtE and k == 0) or (op is ast.NotEq and k == -1)
+            neg = (op is ast.Eq and k == -1) or (op is ast.Lt and k == 0)
+            if pos or neg:
+                return ast.copy_location(ast.Compare(left=node.left.args[0], ops=[ast.In() if pos else ast.NotIn()],
+                                                     comparators=[node.left.func.value]), node)
+        return node
+
+
+class DupTail(ast.NodeTransformer):
+    """if c: A else: B; T   ->   if c: A; T else: B; T    for a single simple statement T behind a two-way `if` whose
+    branches fall through (T runs after either branch anyway)"""
+    def _falls(self, body):
+        return not any(isinstance(x, (ast.Return, ast.Raise, ast.Break, ast.Continue)) for st in body for x in ast.walk(st))
+
+    def _fix(self, body):
+        out = []
+        i = 0
+        while i < len(body):
+            st = body[i]
+            nx = body[i + 1] if i + 1 < len(body) else None
+            if isinstance(st, ast.If) and st.orelse and not (len(st.orelse) == 1 and isinstance(st.orelse[0], ast.If)) \
+                    and isinstance(nx, (ast.Assign, ast.AugAssign, ast.Expr)) and self._falls(st.body) and self._falls(st.orelse) \
+                    and not any(isinstance(x, (ast.Yield, ast.YieldFrom, ast.NamedExpr)) for x in ast.walk(nx)):
+                import copy as _c
+                st.body = st.body + [_c.deepcopy(nx)]
+                st.orelse = st.orelse + [_c.deepcopy(nx)]
+                out.append(st)
+                i += 2
+                continue
+            out.append(st)
+            i += 1
+        return out
+
+    def generic_visit(self, node):
+        super().generic_visit(node)
+        for fld in ('body', 'orelse', 'finalbody'):
+            b = getattr(node, fld, None)
+            if isinstance(b, list) and b and isinstance(b[0], ast.stmt) and not isinstance(node, ast.ClassDef):
+                setattr(node, fld, self._fix(b))
+        return node
+
+
 REWRITES = {'alpha': Alpha, 'flip': Flip, 'notin': NotIn, 'noop': Noop, 'docs': Docs, 'unparse': None,
             'modalias': ModAlias, 'fromimp': FromImp, 'swapif': SwapIf, 'lenzero': LenZero, 'fstring': FString,
             'uncomp': UnComp, 'elseret': ElseRet, 'ternary': Ternary, 'hoistarg': HoistArg, 'keyconst': KeyConst,
             'kwcall': KwCall, 'mergeif': MergeIf, 'splitand': SplitAnd, 'whiletrue': WhileTrue, 'dotformat': DotFormat,
             'listcopy': ListCopy, 'eafp': Eafp, 'filterloop': FilterLoop, 'closure': Closure, 'annotate': Annotate,
-            'require': Require}
+            'require': Require, 'demorgan': DeMorgan, 'findin': FindIn, 'duptail': DupTail}
 
 
 def apply(name, src):
